@@ -124,7 +124,8 @@ CLAIMED.update({
               "runner.overwrite(bench.overwrite(group)); a counter replaces only its own kind; the ignore decision matches the statement for "
               "all flag/ignore combinations, also through the real run_bench_entry (bounded: skipped entries are painted as ignored and never "
               "invoked), as are run_bench_entry's thread-list normalisation for lists of two (0 -> parallelism, ascending, duplicates collapse) and "
-              "the runner's thread option winning over the entry's. Verus also proves, for every ArgMatches, on the region of the real Divan::config_with_args that copies parsed arguments into the runner (verified in chunks of five statements and composed): each run-time option given (sample-count, sample-size, threads sorted and deduplicated, "
+              "the runner's thread option winning over the entry's, and (bounded) sample_count, sample_size and skip_ext_time resolving independently, runner over "
+              "entry, for every combination of set / unset at both levels, a counter given at run time surviving whatever the benchmark sets. Verus also proves, for every ArgMatches, on the region of the real Divan::config_with_args that copies parsed arguments into the runner (verified in chunks of five statements and composed): each run-time option given (sample-count, sample-size, threads sorted and deduplicated, "
               "min-time, max-time, skip-ext-time with or without value, the four counter flags, --ignored / --include-ignored) is stored as "
               "Some(value) in its own field whatever the value, and an option not given leaves its field alone. Verus also proves one level of Divan::run_tree for every tree: each benchmark is handed "
               "to run_bench_entry, and each group's children are walked, with the node's own options over the inherited ones (child over parent), and "
@@ -182,7 +183,9 @@ CLAIMED.update({
               "the other) with Barrier::wait, the clock reads, the fences and ThreadAllocInfo::clear replaced by loggers: a thread reaches its start "
               "timestamp only after its allocation tally was cleared and after it has met the others (a barrier wait) following its last input "
               "generation, input counting and tally clear; a thread starts dropping outputs or inputs only after it has met the others following its "
-              "end timestamp."),
+              "end timestamp (four harnesses: deferred slots, inputs only, zero-sized fast path with Drop input, zero-sized fast path with unit input and "
+              "zero-sized Drop output). The expression creating a round's barrier in bench_loop_threaded (text copied into a shim, Barrier::new replaced by a "
+              "recorder): for 2-4 threads and every mode there is a barrier, made for exactly the round's threads."),
         note=("The cross-thread statement follows from these per-thread orders only together with the ASSUMED semantics of std::sync::Barrier and "
               "with the barrier being created for exactly the round's threads (pinned text in the loop unit). No interleaving is explored (Kani has "
               "no threads). The panic clause and 'only that thread's own allocations' (thread_local!) are undecided."),
